@@ -530,42 +530,53 @@ def check_property(prop, tier, only=None, keep=False, seed=0):
     os.makedirs(workdir, exist_ok=True)
     notes = []
     hooks_on = True
+    builds = [features] + [list(b) + (["thorough"] if tier == "thorough" else []) for b in pmeta.get("extra_builds", [])]
+    selected = []
+    hs_all = []
+    build_s = 0.0
     with FileLock(os.path.join(SLOTS, "build.lock")):
         gen_inputs()
-        hs, build_s, out = kani_build(features, hooks=True)
-        if hs is None:
-            # hook build failed: fall back to the guard-off build (public-API harnesses only)
-            log(f"[{prop}] build with hooks failed, retrying with the guard off")
-            first_err = out
-            hs, build_s2, out = kani_build(features, hooks=False)
-            build_s += build_s2
-            hooks_on = False
+        for bi, feats in enumerate(builds):
+            hs, bs, out = kani_build(feats, hooks=hooks_on)
+            build_s += bs
+            if hs is None and hooks_on:
+                # hook build failed: fall back to the guard-off build (public-API harnesses only)
+                log(f"[{prop}] build with hooks failed, retrying with the guard off")
+                first_err = out
+                hs, bs, out = kani_build(feats, hooks=False)
+                build_s += bs
+                if hs is not None:
+                    hooks_on = False
+                    notes.append("hook build failed; hooked harnesses not run (guard-off fallback)")
+                    log(first_err[-3000:] if isinstance(first_err, str) else first_err)
             if hs is None:
-                log(first_err[-4000:] if isinstance(first_err, str) else first_err)
                 log(out[-4000:] if isinstance(out, str) else out)
-                log(f"[{prop}] BUILD FAILED (harness crate does not compile against /repo)")
+                log(f"[{prop}] BUILD FAILED (harness crate does not compile against /repo) features={feats}")
                 write_evidence(prop, tier, seed, [], time.time() - t_start, 0, notes + ["build failed"], pmeta, build_failed=True)
                 return 2
-            notes.append("hook build failed; hooked harnesses not run (guard-off fallback)")
-        selected = []
-        for h in hs:
-            name = h["pretty_name"].split("::")[-1]
-            hp = harness_props(name)
-            if not hp or prop not in hp[0]:
-                continue
-            if tier == "quick" and hp[1] != "q":
-                continue
-            if only and not re.search(only, name):
-                continue
-            h["short"] = name
-            h["symtab"] = os.path.join(workdir, name + ".symtab.out")
-            shutil.copy(h["goto_file"], h["symtab"])
-            pm = h["goto_file"].replace(".symtab.out", ".pretty_name_map.json")
-            h["pretty_map"] = None
-            if os.path.exists(pm):
-                h["pretty_map"] = os.path.join(workdir, name + ".pretty.json")
-                shutil.copy(pm, h["pretty_map"])
-            selected.append(h)
+            for h in hs:
+                name = h["pretty_name"].split("::")[-1]
+                hp = harness_props(name)
+                if not hp or prop not in hp[0]:
+                    continue
+                if tier == "quick" and hp[1] != "q":
+                    continue
+                if only and not re.search(only, name):
+                    continue
+                if any(x["short"] == name for x in selected):
+                    continue
+                h["short"] = name
+                h["features"] = feats
+                h["symtab"] = os.path.join(workdir, name + ".symtab.out")
+                shutil.copy(h["goto_file"], h["symtab"])
+                pm = h["goto_file"].replace(".symtab.out", ".pretty_name_map.json")
+                h["pretty_map"] = None
+                if os.path.exists(pm):
+                    h["pretty_map"] = os.path.join(workdir, name + ".pretty.json")
+                    shutil.copy(pm, h["pretty_map"])
+                selected.append(h)
+            hs_all.append((feats, [h["pretty_name"] for h in hs]))
+    hs = [n for _, names in hs_all for n in names]
     if not selected:
         log(f"[{prop}] no harness selected")
         write_evidence(prop, tier, seed, [], time.time() - t_start, 0, notes + ["no harness selected"], pmeta, build_failed=True)
@@ -574,7 +585,7 @@ def check_property(prop, tier, only=None, keep=False, seed=0):
     rnd.shuffle(selected)
     # heavy harnesses first (better packing)
     selected.sort(key=lambda h: -rules_for(reg, h["short"], tier)["timeout"])
-    log(f"[{prop}] built {len(hs)} harnesses in {build_s:.1f}s (hooks {'on' if hooks_on else 'OFF'}); running {len(selected)} ({tier})")
+    log(f"[{prop}] built {len(hs)} harnesses in {build_s:.1f}s ({len(builds)} build(s), hooks {'on' if hooks_on else 'OFF'}); running {len(selected)} ({tier})")
 
     records = []
     lock = threading.Lock()
@@ -582,7 +593,7 @@ def check_property(prop, tier, only=None, keep=False, seed=0):
     def work(h):
         name = h["short"]
         ru = rules_for(reg, name, tier)
-        rec = {"harness": h["pretty_name"], "name": name, "unwind": h["attributes"].get("unwind_value"),
+        rec = {"harness": h["pretty_name"], "name": name, "features": h["features"], "unwind": h["attributes"].get("unwind_value"),
                "bounds": ru["bounds"], "instantiation": ru["instantiation"], "symbolic_dims": ru["symbolic"],
                "enumerated_dims": ru["enumerated"], "expect": ru["expect"]}
         try:
@@ -662,20 +673,23 @@ def check_property(prop, tier, only=None, keep=False, seed=0):
     need_replay = [(rec, fl) for rec in records if rec["verdict"] == "CEX" for fl in rec["failures"]
                    if not fl.get("known") and not fl.get("other_property")]
     if need_replay:
-        names = [h["pretty_name"] for h in hs]
         try:
             with FileLock(os.path.join(SLOTS, "native.lock")):
-                bins = build_replayer(features, names, hooks=hooks_on)
-                for rec, fl in need_replay:
-                    if not fl.get("vals"):
-                        fl["replay"] = {"error": "no trace values extracted"}
+                for feats, names in hs_all:
+                    group = [(rec, fl) for rec, fl in need_replay if rec.get("features") == feats]
+                    if not group:
                         continue
-                    rp = {}
-                    for prof in ("dev", "release"):
-                        rp[prof] = run_replay(bins[prof], rec["harness"], fl["vals"])
-                    replays_done += 1
-                    fl["replay"] = rp
-                    fl["reproduced"] = rp["dev"]["outcome"] in ("panic", "timeout") or rp["release"]["outcome"] in ("panic", "timeout")
+                    bins = build_replayer(feats, names, hooks=hooks_on)
+                    for rec, fl in group:
+                        if not fl.get("vals"):
+                            fl["replay"] = {"error": "no trace values extracted"}
+                            continue
+                        rp = {}
+                        for prof in ("dev", "release"):
+                            rp[prof] = run_replay(bins[prof], rec["harness"], fl["vals"])
+                        replays_done += 1
+                        fl["replay"] = rp
+                        fl["reproduced"] = rp["dev"]["outcome"] in ("panic", "timeout") or rp["release"]["outcome"] in ("panic", "timeout")
         except Exception as e:
             log(f"[{prop}] native replay failed: {e}")
         for rec in records:
@@ -688,7 +702,7 @@ def check_property(prop, tier, only=None, keep=False, seed=0):
                 os.makedirs(os.path.join(VERIF, "replays", prop), exist_ok=True)
                 path = os.path.join(VERIF, "replays", prop, rec["name"] + ".json")
                 with open(path, "w") as f:
-                    json.dump({"property": prop, "harness": rec["harness"], "features": features, "hooks": hooks_on,
+                    json.dump({"property": prop, "harness": rec["harness"], "features": rec.get("features", features), "hooks": hooks_on,
                                "label": fl["description"], "location": fl["location"], "vals": fl["vals"],
                                "replay": fl["replay"],
                                "all_failed_labels": [x["description"] for x in rec["failures"]]}, f, indent=1)
